@@ -109,10 +109,14 @@ def run(ctx):
     ctx.sample({"origin": "Nps.tla behaviour", "behaviour": beh[len(beh) // 2], "record": {k: v for k, v in recs[len(beh) // 2].items() if k != "notes"}})
     # TRACE: seeded tracks over seeded multi-segment tempo maps, bounds coinciding with note times and each other
     for k in range(ctx.pick(150, 3000)):
-        res_, tempo, pts = tm.seeded_map(r, max_segments=6, max_total_s=5000)
+        big = k % 10 == 9          # every tenth chart: a long tempo map and hundreds of notes
+        if big:
+            res_, tempo, pts = tm.seeded_map(r, min_segments=r.choice([9, 33, 65]), max_segments=200, max_total_s=5000)
+        else:
+            res_, tempo, pts = tm.seeded_map(r, max_segments=6, max_total_s=5000)
         hi = max(pts)
-        pool = sorted(set(pts) | {r.randrange(0, hi + 1) for _ in range(r.choice([0, 10, 30]))})
-        ticks = sorted(set(r.sample(pool, min(len(pool), r.randrange(1, 25)))))
+        pool = sorted(set(pts) | {r.randrange(0, hi + 1) for _ in range(r.choice([0, 10, 30]) if not big else 600)})
+        ticks = sorted(set(r.sample(pool, min(len(pool), r.randrange(1, 25) if not big else r.randrange(100, 500)))))
         body = []
         for j, t in enumerate(ticks):
             combo = r.choice(nt.ALL_COMBOS)
